@@ -7,6 +7,7 @@ use std::sync::{Arc, Barrier, Mutex};
 use sudachi::analysis::stateless_tokenizer::DictionaryAccess;
 use sudachi::dic::dictionary::JapaneseDictionary;
 use sudachi::dic::word_id::WordId;
+use sudachi::analysis::Mode;
 
 use crate::dictgen::{self, DictOpts};
 use crate::env::Place;
@@ -55,6 +56,118 @@ type Res = Result<Vec<(usize, usize, u32, String, String, u16)>, String>;
 fn analyse(t: &mut Tok, text: &str) -> Res {
     t.run(text).map_err(|e| format!("{:?}", e))?;
     Ok(observe(&t.list).into_iter().map(|o| (o.begin, o.end, o.word_id, o.norm, o.reading, o.pos_id)).collect())
+}
+
+/// Tokenizers created with the debug flag (they dump the input, the lattice and the path to standard output) are
+/// tokenizers like any other: several of them, one per thread, over one shared dictionary. The threads are not
+/// scoped, so that a group of threads that blocks for good can be told from a slow machine: the debug threads make no
+/// progress at all for 20 s while a control thread (same dictionary, same texts, no debug flag) keeps completing
+/// analyses by the hundred. Otherwise the results are compared with the single-threaded ones.
+fn debug_phase(rep: &mut Report, idx: u64, world: &crate::scen::World, texts: &[String]) {
+    use std::sync::atomic::AtomicBool;
+    use sudachi::analysis::stateful_tokenizer::StatefulTokenizer;
+    use sudachi::prelude::MorphemeList;
+    let cfg = crate::env::config(&world.cfg_json, &world.res);
+    let dict: &'static JapaneseDictionary = match guard(|| crate::env::load(&cfg, &world.sys_bytes, &world.user_bytes, Place::Owned)) {
+        Ok(Ok(d)) => Box::leak(Box::new(d)),
+        _ => return,
+    };
+    crate::env::silence_stdout();
+    let texts: Arc<Vec<String>> = Arc::new(texts.iter().filter(|t| t.chars().count() < 60).take(12).cloned().collect());
+    if texts.is_empty() {
+        return;
+    }
+    fn one(tok: &mut StatefulTokenizer<&'static JapaneseDictionary>, list: &mut MorphemeList<&'static JapaneseDictionary>, text: &str) -> Res {
+        tok.reset().push_str(text);
+        tok.do_tokenize().map_err(|e| format!("{:?}", e))?;
+        list.collect_results(tok).map_err(|e| format!("{:?}", e))?;
+        Ok(list.iter().map(|m| (m.begin(), m.end(), m.word_id().as_raw(), m.normalized_form().to_string(), m.reading_form().to_string(), m.part_of_speech_id())).collect())
+    }
+    let n_threads = 4usize;
+    let per_thread = 30usize;
+    let progress = Arc::new(AtomicU64::new(0));
+    let finished = Arc::new(AtomicU64::new(0));
+    let control_ops = Arc::new(AtomicU64::new(0));
+    let stop = Arc::new(AtomicBool::new(false));
+    let results: Arc<Mutex<Vec<(usize, usize, Res)>>> = Arc::new(Mutex::new(vec![]));
+    let barrier = Arc::new(Barrier::new(n_threads + 1));
+    for ti in 0..n_threads {
+        let (texts, progress, finished, results, barrier) = (texts.clone(), progress.clone(), finished.clone(), results.clone(), barrier.clone());
+        std::thread::spawn(move || {
+            let mode = MODES[ti % 3];
+            let mut tok = StatefulTokenizer::create(dict, true, mode);
+            let mut list = MorphemeList::empty(dict);
+            barrier.wait();
+            for k in 0..per_thread {
+                let r = std::panic::catch_unwind(std::panic::AssertUnwindSafe(|| one(&mut tok, &mut list, &texts[k % texts.len()]))).unwrap_or_else(|_| Err("panic".to_string()));
+                results.lock().unwrap().push((ti, k, r));
+                progress.fetch_add(1, Ordering::SeqCst);
+            }
+            finished.fetch_add(1, Ordering::SeqCst);
+        });
+    }
+    {
+        let (texts, control_ops, stop, barrier) = (texts.clone(), control_ops.clone(), stop.clone(), barrier.clone());
+        std::thread::spawn(move || {
+            let mut tok = StatefulTokenizer::new(dict, Mode::C);
+            let mut list = MorphemeList::empty(dict);
+            barrier.wait();
+            let mut k = 0usize;
+            while !stop.load(Ordering::SeqCst) {
+                let _ = std::panic::catch_unwind(std::panic::AssertUnwindSafe(|| one(&mut tok, &mut list, &texts[k % texts.len()])));
+                control_ops.fetch_add(1, Ordering::SeqCst);
+                k += 1;
+            }
+        });
+    }
+    let t0 = std::time::Instant::now();
+    let mut last_progress = 0u64;
+    let mut last_change = std::time::Instant::now();
+    let mut control_at_change = 0u64;
+    let mut blocked = false;
+    loop {
+        std::thread::sleep(std::time::Duration::from_millis(20));
+        if finished.load(Ordering::SeqCst) == n_threads as u64 {
+            break;
+        }
+        let p = progress.load(Ordering::SeqCst);
+        let c = control_ops.load(Ordering::SeqCst);
+        if p != last_progress {
+            last_progress = p;
+            last_change = std::time::Instant::now();
+            control_at_change = c;
+        } else if last_change.elapsed().as_secs() >= 20 && c >= control_at_change + 500 {
+            blocked = true;
+            break;
+        }
+        if t0.elapsed().as_secs() > 180 {
+            rep.notes.push(format!("repetition {}: debug-tokenizer threads neither finished nor were shown to be blocked within 180 s (not judged)", idx));
+            stop.store(true, Ordering::SeqCst);
+            return;
+        }
+    }
+    stop.store(true, Ordering::SeqCst);
+    rep.count("repetitions_with_debug_tokenizers_in_threads", 1);
+    let scen = || json!({"repetition": idx, "threads_with_debug_tokenizers": n_threads, "operations_each": per_thread, "texts": *texts, "world": world.describe(false)});
+    if blocked {
+        rep.violation("threads_blocked", "debug tokenizers", &format!("{} threads with debug tokenizers completed {} of {} analyses and then none for 20 s, while a thread with an ordinary tokenizer on the same dictionary completed {} analyses in that time", n_threads, last_progress, n_threads * per_thread, control_ops.load(Ordering::SeqCst) - control_at_change), "", scen());
+        return;
+    }
+    // same results as an ordinary tokenizer, one thread
+    let mut base_tok: Vec<StatefulTokenizer<&'static JapaneseDictionary>> = MODES.iter().map(|m| StatefulTokenizer::new(dict, *m)).collect();
+    let mut base_list = MorphemeList::empty(dict);
+    let res = results.lock().unwrap();
+    for (ti, k, r) in res.iter() {
+        let b = match guard(|| one(&mut base_tok[ti % 3], &mut base_list, &texts[k % texts.len()])) {
+            Ok(b) => b,
+            Err(p) => Err(format!("panic: {}", p.msg)),
+        };
+        rep.count("debug_tokenizer_results_compared", 1);
+        if b != *r {
+            rep.violation("result_differs_from_single_threaded", "debug tokenizers", &format!("thread {} analysis {} (text {:?}): with the debug flag in a thread {:?}, ordinary tokenizer alone {:?}", ti, k, clip(&texts[k % texts.len()], 40), clip(&format!("{:?}", r), 200), clip(&format!("{:?}", b), 200)), "", scen());
+            break;
+        }
+    }
 }
 
 pub fn run(ctx: &Ctx, rep: &mut Report) {
@@ -298,6 +411,9 @@ pub fn run(ctx: &Ctx, rep: &mut Report) {
             for m in bad.lock().unwrap().iter().take(2) {
                 rep.violation("result_differs_from_single_threaded", "SentenceSplitter", m, "", json!({"repetition": idx, "threads": n_threads, "text_chars": long_text.chars().count()}));
             }
+        }
+        if ctx.stage == "main" && idx % 4 == 0 {
+            debug_phase(rep, idx, &world, &texts);
         }
         let after = digest(&world, &world.dict);
         let scen = |extra: &str| json!({"repetition": idx, "threads": n_threads, "detail": extra, "world": world.describe(false)});
